@@ -254,9 +254,17 @@ class UnusedTranslator:
         mapping: dict[Predicate, "UnusedTranslator.Mapper"] = {}
         rd = RuleDependency(prg)
 
+        in_directives: set[Predicate] = set()
+        for stm in prg:
+            if stm.ast_type not in (ASTType.Rule, ASTType.Minimize):
+                for func in collect_ast(stm, "Function"):
+                    in_directives.add(Predicate(func.name, len(func.arguments)))
+
         for head in rd.get_headderivable_predicates():
             if head in self.input_predicates or head in self.output_predicates:
                 continue
+            if head in in_directives:
+                continue  # directives (#show terms, #external, ...) are passed through verbatim
 
             rules = rd.get_rules_that_derive(head)
             if not len(rules) == 1:
